@@ -150,8 +150,11 @@ func vh_C10_manager_roundtrip() {
 	set := verifSetCookies(rw.Header())
 	verifAssume(len(set) == 1)
 	kv.reliable = false
-	got, err := m.Load(vReq(set[0]))
 	expireSec := int(opts.Expire / time.Second)
+	if (age >= expireSec-2 && age <= expireSec+2) || (age >= -302 && age <= -298) {
+		verifIdealOnly() // at a window edge the verdict depends on the sub-second wall clock: not sampled natively
+	}
+	got, err := m.Load(vReq(set[0]))
 	if err == nil {
 		verifReach("loaded")
 		verifAssert("C09.manager.not-past-lifetime-from-creation", age < expireSec+1 && age > -301)
